@@ -232,7 +232,7 @@ func main() {
 		knownFuncs = map[string]bool{}
 		for _, l := range strings.Split(string(b), "\n") {
 			if l = strings.TrimSpace(l); l != "" && !strings.HasPrefix(l, "#") {
-				knownFuncs[l] = true
+				knownFuncs[normRecv(l)] = true
 			}
 		}
 	}
